@@ -32,6 +32,8 @@ From CF Require Import C12.History.
 From CF Require Import C12.Proofs_history.
 From CF Require Import C12.Alias.
 From CF Require Import C12.Proofs_alias.
+From CF Require Import C12.Stream.
+From CF Require Import C12.Proofs_stream.
 Open Scope Z_scope.
 
 (* Success means the image is in flash, byte for byte, at start * page_size — provided positive
@@ -428,3 +430,30 @@ Theorem C12_reused_packet_object_refuted :
   alias_free (ub_ops false frames) = false.
 Proof. exact reused_packet_refuted. Qed.
 Print Assumptions C12_reused_packet_object_refuted.
+
+(* ------------------------------------------------------------------ Wave 13: write_flash against endless receive streams *)
+
+(* For EVERY stream of receive results (a function nat -> what the k-th receive_packet(2.5) returns — silence,
+   answers, packets of the other target, other commands, short packets, without end): write_flash sends its command
+   at least once and at most six times and listens exactly once per command sent. *)
+Theorem C12_write_flash_bounded_on_every_stream : forall addr rx r k s,
+  write_flash_stream addr rx = (r, k, s) -> (1 <= s <= 6)%nat /\ k = s.
+Proof. exact write_flash_stream_bounded. Qed.
+Print Assumptions C12_write_flash_bounded_on_every_stream.
+
+(* If the stream never contains the answer to this command — however many other packets it keeps delivering —
+   write_flash reports failure after exactly six commands and six receives (and _internal_flash aborts:
+   C12_write_retry_bounded_then_abort). *)
+Theorem C12_write_flash_unanswered_stream_fails : forall addr rx,
+  (forall j, good_reply addr (rx j) = false) ->
+  write_flash_stream addr rx = (WFalse, 6%nat, 6%nat).
+Proof. exact write_flash_stream_unanswered. Qed.
+Print Assumptions C12_write_flash_unanswered_stream_fails.
+
+(* REFUTATION of "packets that are not the answer do not count" (seeded change C12-m): on a link that delivers a
+   stray packet (e.g. the other target's acknowledgement) on every listen, the variant has not returned after any
+   number of receives. *)
+Theorem C12_uncounted_strays_refuted : forall addr p, good_reply addr (Some p) = false ->
+  forall fuel, wfv_loop fuel 6 addr None O (fun _ => Some p) = None.
+Proof. exact variant_never_returns. Qed.
+Print Assumptions C12_uncounted_strays_refuted.
